@@ -32,6 +32,14 @@ def Event():
     return core.CEvent() if core.ACTIVE is not None else _REAL["Event"]()
 
 
+def Condition(lock=None):
+    return core.CCondition(lock) if core.ACTIVE is not None else _REAL["Condition"](lock)
+
+
+def current_thread():
+    return core.current_thread()
+
+
 def Thread(*a, **k):
     return core.CThread(*a, **k) if core.ACTIVE is not None else _REAL["Thread"](*a, **k)
 
@@ -68,7 +76,8 @@ class _BaseThreadingShim(types.ModuleType):
         return core.QuietRLock() if core.ACTIVE is not None else _REAL["RLock"]()
 
 
-_FACTORIES = {"Lock": Lock, "RLock": RLock, "Event": Event, "Thread": Thread, "monotonic": monotonic}
+_FACTORIES = {"Lock": Lock, "RLock": RLock, "Event": Event, "Thread": Thread, "Condition": Condition, "monotonic": monotonic,
+              "current_thread": current_thread}
 _installed = False
 IMPL_DIR = None
 LIB_MODULES = []
@@ -178,7 +187,7 @@ def selfcheck(objs=()):
         for name, val in list(mod.__dict__.items()):
             if name.startswith("__"):
                 continue
-            if val in (_REAL["Lock"], _REAL["RLock"], _REAL["Event"], _REAL["Thread"], _real_monotonic):
+            if val in (_REAL["Lock"], _REAL["RLock"], _REAL["Event"], _REAL["Thread"], _REAL["Condition"], _real_monotonic):
                 problems.append("%s.%s is a real primitive factory" % (mod.__name__, name))
             elif isinstance(val, _REAL_TYPES):
                 problems.append("%s.%s is a real primitive instance" % (mod.__name__, name))
